@@ -98,7 +98,7 @@ def ctx_with_empty_list_arg():
     from pylatexenc.latexnodes import LatexArgumentSpec
     from pylatexenc.latexnodes.parsers import LatexOptionalCharsMarkerParser
     db = get_ctx('SU')
-    db.add_context_category('W', macros=[MacroSpec('w', arguments_spec_list=[
+    db.add_context_category('W', prepend=True, macros=[MacroSpec('w', arguments_spec_list=[
         LatexArgumentSpec(LatexOptionalCharsMarkerParser(['*'], return_none_instead_of_empty=False)), '{'])])
     return db
 
@@ -151,7 +151,7 @@ def conditions(tier):
         for tag, pre in ord_partition('s', 0, (36, 37, 92, 93, 123)):
             conds.append(Cond('visit_S_tol_eq3_' + tag, 's: str', ['len(s) == 3', pre], "body_visit(s, 'S', True)",
                               timeout=T, cost=4, twin=False))
-    for nm, sk in (('w_absent', BS + 'w?{?}?'), ('w_star', BS + 'w*{?}?')):
+    for nm, sk in (('w_absent', BS + 'w{?}?'), ('w_absent2', BS + 'w?{x}?'), ('w_star', BS + 'w*{?}?')):
         conds.append(Cond('skel_W_' + nm, 's: str', skel_pre(sk), "body_visit(s, 'W', False)", timeout=T, twin=False,
                           smoke=[dict(s=skel_fill(sk)), dict(s=skel_fill(sk, ' '))],
                           descr='macro whose absent optional marker is an empty node list: %r' % sk))
